@@ -13,6 +13,7 @@ import (
 	"bytes"
 	"fmt"
 	"go/ast"
+	"go/build"
 	"go/parser"
 	"go/printer"
 	"go/token"
@@ -24,16 +25,16 @@ import (
 	"strings"
 )
 
-const c31NChunks = 12
+const c31NChunks = 14
 
 func init() { extractors["C31"] = c31Extract }
 
-type c31Bind struct {
+type c31XBind struct {
 	Path, Key string
 	Form      string // lean term
 }
-type c31Untyped struct{ Path, Key, Val string }
-type c31Wrapper struct {
+type c31XUntyped struct{ Path, Key, Val string }
+type c31XWrapper struct {
 	Path, Key string
 	Methods   []string
 }
@@ -52,24 +53,25 @@ type c31Method struct {
 	Params, Results          []c31Param
 	Body                     string // lean term
 }
-type c31Proxy struct {
+type c31XProxy struct {
 	Name    string
 	Fields  []c31Field
 	Methods []*c31Method
 }
 type c31File struct {
 	Rel            string // path relative to the repo
+	Active         bool   // compiled on this platform (build constraints, go/build default context)
 	Inception      bool
 	OwnPath        string
 	ReflectAliases []string
 	Aliases        [][2]string
 	Pkgs           [][2]string
-	Binds          []c31Bind
-	Types          []c31Bind
-	Proxies        []c31Bind
-	Untypeds       []c31Untyped
-	Wrappers       []c31Wrapper
-	Decls          []*c31Proxy
+	Binds          []c31XBind
+	Types          []c31XBind
+	Proxies        []c31XBind
+	Untypeds       []c31XUntyped
+	Wrappers       []c31XWrapper
+	Decls          []*c31XProxy
 	Other          int // statements in init() that are not table assignments
 }
 
@@ -98,22 +100,10 @@ func c31SourceFiles(repo string) ([]string, error) {
 		m, _ := filepath.Glob(filepath.Join(repo, pat))
 		files = append(files, m...)
 	}
-	err := filepath.Walk(repo, func(p string, info os.FileInfo, err error) error {
-		if err != nil {
-			return nil
-		}
-		if info.IsDir() {
-			b := info.Name()
-			if p != repo && (strings.HasPrefix(b, ".") || strings.HasPrefix(b, "_") || b == "testdata" || b == "vendor") {
-				return filepath.SkipDir
-			}
-			return nil
-		}
-		if info.Name() == "x_package.go" {
-			files = append(files, p)
-		}
-		return nil
-	})
+	// x_package.go files (gomacro's own packages, output of an older generator: proxies without the
+	// Object parameter, hand-edited keys) are outside the anchored tables; the run-time oracle still
+	// visits them through imports.Packages.
+	var err error
 	sort.Strings(files)
 	// dedupe
 	out := files[:0]
@@ -139,6 +129,9 @@ func c31ParseRepo(repo string) ([]*c31File, error) {
 		}
 		rel, _ := filepath.Rel(repo, fn)
 		f := c31ParseFile(fset, af, rel)
+		if ok, err := build.Default.MatchFile(filepath.Dir(fn), filepath.Base(fn)); err == nil {
+			f.Active = ok
+		}
 		if len(f.Pkgs) == 0 && len(f.Decls) == 0 {
 			continue // util.go, a_package.go of syscall/thirdparty: no tables
 		}
@@ -171,7 +164,6 @@ func c31ParseFile(fset *token.FileSet, af *ast.File, rel string) *c31File {
 		}
 		if p == "reflect" {
 			f.ReflectAliases = append(f.ReflectAliases, alias)
-			continue
 		}
 		if alias == "." || alias == "_" {
 			alias = "?" + alias // never matches an identifier
@@ -217,21 +209,21 @@ func c31ParseFile(fset *token.FileSet, af *ast.File, rel string) *c31File {
 	valForm := func(e ast.Expr) string {
 		call, ok := e.(*ast.CallExpr)
 		if !ok {
-			return ".opaque"
+			return ".opaq"
 		}
 		// ValueOf(&X).Elem()
 		if sel, ok := call.Fun.(*ast.SelectorExpr); ok && sel.Sel.Name == "Elem" && len(call.Args) == 0 {
 			inner, ok := sel.X.(*ast.CallExpr)
 			if !ok || !isReflect(inner.Fun, "ValueOf") || len(inner.Args) != 1 || inner.Ellipsis.IsValid() {
-				return ".opaque"
+				return ".opaq"
 			}
 			u, ok := inner.Args[0].(*ast.UnaryExpr)
 			if !ok || u.Op != token.AND {
-				return ".opaque"
+				return ".opaq"
 			}
 			p, s, ok := sym(u.X)
 			if !ok {
-				return ".opaque"
+				return ".opaq"
 			}
 			if p == "" {
 				return fmt.Sprintf(".localAddr %s", leanStr(s))
@@ -239,7 +231,7 @@ func c31ParseFile(fset *token.FileSet, af *ast.File, rel string) *c31File {
 			return fmt.Sprintf(".addr %s %s", leanStr(p), leanStr(s))
 		}
 		if !isReflect(call.Fun, "ValueOf") || len(call.Args) != 1 || call.Ellipsis.IsValid() {
-			return ".opaque"
+			return ".opaq"
 		}
 		arg := call.Args[0]
 		if p, s, ok := sym(arg); ok {
@@ -258,40 +250,40 @@ func c31ParseFile(fset *token.FileSet, af *ast.File, rel string) *c31File {
 				}
 			}
 		}
-		return ".opaque"
+		return ".opaq"
 	}
 	typeForm := func(e ast.Expr) string {
 		// TypeOf((*X)(nil)).Elem()
 		call, ok := e.(*ast.CallExpr)
 		if !ok || len(call.Args) != 0 {
-			return ".opaque"
+			return ".opaq"
 		}
 		sel, ok := call.Fun.(*ast.SelectorExpr)
 		if !ok || sel.Sel.Name != "Elem" {
-			return ".opaque"
+			return ".opaq"
 		}
 		inner, ok := sel.X.(*ast.CallExpr)
 		if !ok || !isReflect(inner.Fun, "TypeOf") || len(inner.Args) != 1 {
-			return ".opaque"
+			return ".opaq"
 		}
 		conv, ok := inner.Args[0].(*ast.CallExpr)
 		if !ok || len(conv.Args) != 1 {
-			return ".opaque"
+			return ".opaq"
 		}
 		if id, ok := conv.Args[0].(*ast.Ident); !ok || id.Name != "nil" {
-			return ".opaque"
+			return ".opaq"
 		}
 		par, ok := conv.Fun.(*ast.ParenExpr)
 		if !ok {
-			return ".opaque"
+			return ".opaq"
 		}
 		star, ok := par.X.(*ast.StarExpr)
 		if !ok {
-			return ".opaque"
+			return ".opaq"
 		}
 		p, s, ok := sym(star.X)
 		if !ok {
-			return ".opaque"
+			return ".opaq"
 		}
 		if p == "" {
 			return fmt.Sprintf(".localNamed %s", leanStr(s))
@@ -344,19 +336,19 @@ func c31ParseFile(fset *token.FileSet, af *ast.File, rel string) *c31File {
 				}
 				switch k.Name {
 				case "Binds":
-					f.Binds = append(f.Binds, c31Bind{path, key, valForm(ekv.Value)})
+					f.Binds = append(f.Binds, c31XBind{path, key, valForm(ekv.Value)})
 				case "Types":
-					f.Types = append(f.Types, c31Bind{path, key, typeForm(ekv.Value)})
+					f.Types = append(f.Types, c31XBind{path, key, typeForm(ekv.Value)})
 				case "Proxies":
-					f.Proxies = append(f.Proxies, c31Bind{path, key, typeForm(ekv.Value)})
+					f.Proxies = append(f.Proxies, c31XBind{path, key, typeForm(ekv.Value)})
 				case "Untypeds":
 					v, ok := strLit(ekv.Value)
 					if !ok {
 						v = "?"
 					}
-					f.Untypeds = append(f.Untypeds, c31Untyped{path, key, v})
+					f.Untypeds = append(f.Untypeds, c31XUntyped{path, key, v})
 				case "Wrappers":
-					w := c31Wrapper{Path: path, Key: key}
+					w := c31XWrapper{Path: path, Key: key}
 					if sl, ok := ekv.Value.(*ast.CompositeLit); ok {
 						for _, x := range sl.Elts {
 							if s, ok := strLit(x); ok {
@@ -396,7 +388,7 @@ func c31ParseFile(fset *token.FileSet, af *ast.File, rel string) *c31File {
 		}
 		return ps
 	}
-	decls := map[string]*c31Proxy{}
+	decls := map[string]*c31XProxy{}
 	for _, d := range af.Decls {
 		switch d := d.(type) {
 		case *ast.GenDecl:
@@ -406,10 +398,10 @@ func c31ParseFile(fset *token.FileSet, af *ast.File, rel string) *c31File {
 			for _, sp := range d.Specs {
 				ts := sp.(*ast.TypeSpec)
 				st, ok := ts.Type.(*ast.StructType)
-				if !ok || ts.Assign.IsValid() || !strings.HasPrefix(ts.Name.Name, "P_") {
+				if !ok || ts.Assign.IsValid() || ts.TypeParams != nil {
 					continue
 				}
-				p := &c31Proxy{Name: ts.Name.Name}
+				p := &c31XProxy{Name: ts.Name.Name}
 				for _, fd := range st.Fields.List {
 					names := fd.Names
 					if len(names) == 0 {
@@ -434,7 +426,7 @@ func c31ParseFile(fset *token.FileSet, af *ast.File, rel string) *c31File {
 	}
 	body := func(m *c31Method, b *ast.BlockStmt) string {
 		if b == nil || len(b.List) != 1 {
-			return ".opaque"
+			return ".opaq"
 		}
 		var call *ast.CallExpr
 		kind := ""
@@ -449,15 +441,15 @@ func c31ParseFile(fset *token.FileSet, af *ast.File, rel string) *c31File {
 			kind = ".expr"
 		}
 		if call == nil {
-			return ".opaque"
+			return ".opaq"
 		}
 		sel, ok := call.Fun.(*ast.SelectorExpr)
 		if !ok {
-			return ".opaque"
+			return ".opaq"
 		}
 		recv, ok := sel.X.(*ast.Ident)
 		if !ok {
-			return ".opaque"
+			return ".opaq"
 		}
 		var args []string
 		for i, a := range call.Args {
@@ -472,10 +464,10 @@ func c31ParseFile(fset *token.FileSet, af *ast.File, rel string) *c31File {
 				if x, ok := a.X.(*ast.Ident); ok {
 					args = append(args, fmt.Sprintf(".recvField %s %s", leanStr(x.Name), leanStr(a.Sel.Name)))
 				} else {
-					args = append(args, ".opaque")
+					args = append(args, ".opaq")
 				}
 			default:
-				args = append(args, ".opaque")
+				args = append(args, ".opaq")
 			}
 		}
 		return fmt.Sprintf("%s ⟨%s, %s, [%s]⟩", kind, leanStr(recv.Name), leanStr(sel.Sel.Name), strings.Join(args, ", "))
@@ -589,7 +581,7 @@ func c31WriteFile(b *bytes.Buffer, id string, f *c31File) {
 		}
 		return "[" + strings.Join(names, ", ") + "]"
 	}
-	ent := func(es []c31Bind) func(int) string {
+	ent := func(es []c31XBind) func(int) string {
 		return func(i int) string {
 			e := es[i]
 			return fmt.Sprintf("⟨%s, %s, %s⟩", leanStr(e.Path), leanStr(e.Key), e.Form)
@@ -647,8 +639,8 @@ func c31WriteFile(b *bytes.Buffer, id string, f *c31File) {
 	for _, a := range f.Pkgs {
 		pk = append(pk, fmt.Sprintf("(%s, %s)", leanStr(a[0]), leanStr(a[1])))
 	}
-	fmt.Fprintf(b, "/-- %s -/\ndef %s : FileTbl := {\n  file := %s\n  kind := %s\n  ownPath := %s\n  reflectAliases := [%s]\n  aliases := [%s]\n  pkgs := [%s]\n  binds := %s\n  types := %s\n  proxies := %s\n  untypeds := %s\n  wrappers := %s\n  decls := [%s] }\n\n",
-		f.Rel, id, leanStr(f.Rel), kind, leanStr(f.OwnPath), strings.Join(ra, ", "), strings.Join(al, ", "), strings.Join(pk, ", "),
+	fmt.Fprintf(b, "/-- %s -/\ndef %s : FileTbl := {\n  file := %s\n  active := %v\n  kind := %s\n  ownPath := %s\n  reflectAliases := [%s]\n  aliases := [%s]\n  pkgs := [%s]\n  binds := %s\n  types := %s\n  proxies := %s\n  untypeds := %s\n  wrappers := %s\n  decls := [%s] }\n\n",
+		f.Rel, id, leanStr(f.Rel), f.Active, kind, leanStr(f.OwnPath), strings.Join(ra, ", "), strings.Join(al, ", "), strings.Join(pk, ", "),
 		binds, types, proxies, untypeds, wrappers, strings.Join(declNames, ", "))
 }
 
